@@ -87,6 +87,19 @@ def scn_rng(T, case):
     T.prove("C16.rng.one_sampler_per_configured_sampler", len(samplers) == n and [c[2] for c in samplers] == list(range(n)))
     T.prove("C16.rng.every_sampler_receives_that_very_generator", all(c[4] is made[0][1] for c in samplers))
     T.prove("C16.rng.no_state_kept_besides_the_samplers", ev._cache_for_gradient is None)
+    # a second evaluator made from the same configuration object starts its own generator from the seed (same stream again)
+    n_made, n_created = len(made), len(created)
+    if T.symbolic:
+        cls(cfg, None, lambda *a: None, pm)
+    else:
+        real.default_rng = default_rng
+        try:
+            real.EnsembleEvaluator(cfg, None, lambda *a: None, pm)
+        finally:
+            real.default_rng = saved
+    again = [c for c in created[n_created:] if c[0] == "sampler"]
+    T.prove("C16.rng.a_second_evaluator_of_the_same_configuration_builds_its_own_generator_from_the_seed",
+            len(made) == n_made + 1 and made[-1][0] == tuple(case["seed"]) and made[-1][1] is not made[0][1] and all(c[4] is made[-1][1] for c in again) and len(again) == n)
 
 
 # ------------------------------------------------------------------------------------ sampler -> SciPy: the generator is passed on
@@ -358,6 +371,11 @@ def scn_native(T, case):
     other = dict(cfg, gradient=dict(cfg["gradient"], seed=seed + 1), optimizer={"method": "slsqp", "max_functions": 2})
     _trace_run(other)
     T.prove("C16.native.same_trace_after_an_unrelated_run_in_the_same_process", _trace_run(cfg) == base)
+    from ropt.config.enopt import EnOptConfig
+
+    validated = EnOptConfig.model_validate(cfg)
+    first = _trace_run(validated)
+    T.prove("C16.native.same_trace_when_one_validated_configuration_object_is_run_twice", first == base and _trace_run(validated) == base)
     if not case.get("de"):
         changed = _trace_run(dict(cfg, gradient=dict(cfg["gradient"], seed=seed + 1)))
         reqs = lambda t: [e[1] for e in t if e[0] == "request" and e[3] is not None]  # noqa: E731
